@@ -9,7 +9,7 @@
 From Coq Require Import List Ascii String Bool Arith PrimFloat.
 From Verif Require Import Base.Result Base.Str Base.Sexp Base.PyDict Base.Float
   Model.Tokenizer Model.Types Model.Domain Model.Exec Model.PlanConverter
-  Spec.Pddl Spec.Grammar Spec.JointPlan.
+  Spec.Pddl Spec.Grammar Spec.JointPlan Proofs.C15_Views Proofs.C15_Effect Proofs.C15_Sound.
 Import ListNotations.
 Open Scope string_scope.
 Open Scope list_scope.
@@ -170,3 +170,68 @@ Lemma ex_library_runs :
   | _, _ => false
   end = true.
 Proof. vm_compute. reflexivity. Qed.
+
+(* the hypotheses of the outcome theorem are satisfiable: every precondition of the example evaluates in every state *)
+Lemma ex_pre_total : Forall (fun c => pre_total mdom eps c) calls_ex.
+Proof.
+  repeat constructor; intros ga Hga st; vm_compute in Hga; inversion Hga; subst ga; eexists; cbv - [atom_in fluent_get cmp_holds PrimFloat.leb PrimFloat.ltb PrimFloat.abs PrimFloat.sub]; reflexivity.
+Qed.
+
+Lemma ex_sequential_valid : exists fin, run_sequential mdom eps init calls_ex = Ok fin.
+Proof. eexists. vm_compute. reflexivity. Qed.
+
+(* ---------- the full soundness statement fails on the witness of D70 ---------- *)
+Lemma w70_not_sound : ~ sound_regrouping float_beq w init calls70 js70.
+Proof.
+  unfold sound_regrouping. rewrite w70_joint_undefined.
+  destruct (seq_run w init calls70) eqn:E; [intros H; exact H|].
+  pose proof w70_sequential_valid as V. rewrite E in V. discriminate.
+Qed.
+
+Definition sound_statement : Prop :=
+  forall (domain_text : string) (nums : string -> option float) (eps : float) (tt : tytree) (objs : objects)
+         (init : state) (agents : list string) (flag : bool) (t : text),
+  match parse MFile (s2t domain_text) with
+  | Ok e =>
+      match parse_domain nums e, read_domain nums e with
+      | Ok d, Some sd =>
+          forall pa js,
+            extract_plan_actions agents t = Ok pa -> Forall (fun p => is_nop (fst p) = false) pa ->
+            convert_plan d eps agents flag insertion_ok init t = Ok js ->
+            sound_regrouping float_beq {| jw_eps := eps; jw_tt := tt; jw_objs := objs; jw_actions := sd_actions sd |}
+                             init (map fst pa) js
+      | _, _ => True
+      end
+  | Err _ => True
+  end.
+
+Definition e0 : sexp := Eval vm_compute in (match dom_sexp with Ok e => e | Err _ => Atom "" end).
+Definition sd0 : sdomain :=
+  Eval vm_compute in (match read_domain nums e0 with
+                      | Some sd => sd
+                      | None => {| sd_types := []; sd_consts := []; sd_preds := []; sd_funcs := []; sd_actions := [] |}
+                      end).
+
+Lemma reading_sexp : parse MFile (s2t dom_text) = Ok e0.
+Proof. vm_compute. reflexivity. Qed.
+Lemma reading_model : parse_domain nums e0 = Ok mdom.
+Proof. vm_compute. reflexivity. Qed.
+Lemma reading_spec : read_domain nums e0 = Some sd0.
+Proof. vm_compute. reflexivity. Qed.
+Lemma reading_spec_actions : sd_actions sd0 = sdom.
+Proof. vm_compute. reflexivity. Qed.
+
+Lemma sound_statement_refuted : ~ sound_statement.
+Proof.
+  intros H.
+  specialize (H dom_text nums eps [("agent", "object"); ("thing", "object")] objs init agents70 true plan70).
+  rewrite reading_sexp in H. cbv beta iota in H. rewrite reading_model, reading_spec in H. cbv beta iota in H.
+  rewrite reading_spec_actions in H.
+  destruct (extract_plan_actions agents70 plan70) as [pa|] eqn:Ee; [|vm_compute in Ee; discriminate].
+  specialize (H pa js70 eq_refl).
+  assert (Hpa : map fst pa = calls70).
+  { pose proof w70_extracted as X. rewrite Ee in X. cbn in X. inversion X. reflexivity. }
+  assert (Hn : Forall (fun p => is_nop (fst p) = false) pa).
+  { vm_compute in Ee. inversion Ee; subst pa. repeat constructor. }
+  specialize (H Hn w70_converted). rewrite Hpa in H. exact (w70_not_sound H).
+Qed.
